@@ -59,11 +59,12 @@ def _fa_oracle(args, obs):
 
 def c20_fa(t: T9, m: int, starts: int, finals: int, l0: int, l1: int, s0: int, s1: int) -> bool:
     """
+    pre: pinned(m=m, starts=starts, finals=finals, l0=l0, l1=l1, s0=s0, s1=s1)
     pre: 0 <= m <= 3 and 0 <= starts < 4 and 0 <= finals < 4
+    pre: THOROUGH or ((s0 == 0 or s0 == 8) and (s1 == 2 or s1 == 3 or s1 == 4 or s1 == 9))
     pre: 0 <= l0 < NSTATE and 0 <= l1 < NSTATE and l0 != l1 and 0 <= s0 < NSYM and 0 <= s1 < NSYM and s0 != s1
     pre: all(0 <= t[3 * i] < 2 and 0 <= t[3 * i + 1] <= 2 and 0 <= t[3 * i + 2] < 2 for i in range(3))
     pre: sparse_canonical(t, m)
-    pre: pinned(m=m, starts=starts, finals=finals, l0=l0, l1=l1, s0=s0, s1=s1)
     post: _
     """
     raw = (t, m, starts, finals, l0, l1, s0, s1)
@@ -78,6 +79,7 @@ def c20_fa(t: T9, m: int, starts: int, finals: int, l0: int, l1: int, s0: int, s
     return chx.judge("C20", "c20_fa", raw, (edges, st, fi, labels, syms), obs, _fa_oracle)
 
 
+THOROUGH = chx.thorough()
 NSTATE = len(STATE_LABELS)
 NSYM = len(SYMBOL_LABELS)
 
@@ -121,9 +123,10 @@ def _pda_oracle(args, obs):
 
 def c20_pda(t: T10, m: int, finals: int, sl: int, kl: int, il: int) -> bool:
     """
+    pre: pinned(m=m, finals=finals, sl=sl, kl=kl, il=il, f0=t[0], c0=t[4])
     pre: 0 <= m <= 2 and 0 <= finals < 4 and 0 <= sl < 5 and 0 <= kl < 4 and 0 <= il < 3
     pre: pda_canonical(t, m, 2, 2)
-    pre: pinned(m=m, finals=finals, sl=sl, kl=kl, il=il, f0=t[0], c0=t[4])
+    pre: THOROUGH or m < 2 or ((t[5] == t[0]) & (t[6] == t[1]))
     post: _
     """
     raw = (t, m, finals, sl, kl, il)
@@ -191,9 +194,9 @@ def _text_oracle(args, obs):
 
 def c20_text(v0: int, v1: int, t0: int, t1: int, shape: int) -> bool:
     """
+    pre: pinned(v0=v0, v1=v1, shape=shape)
     pre: 0 <= v0 < NNAMES and 0 <= v1 < NNAMES and v0 != v1 and 0 <= t0 < NNAMES and 0 <= t1 < NNAMES and t0 != t1
     pre: 0 <= shape < 4
-    pre: pinned(v0=v0, v1=v1, shape=shape)
     post: _
     """
     raw = (v0, v1, t0, t1, shape)
@@ -289,11 +292,11 @@ def boxes_plain(rsa):
 
 def c20_rsa(b0: Tuple[int, int, int], n0: int, b1: Tuple[int, int, int], n1: int, h1: int, nlines: int) -> bool:
     """
+    pre: pinned(n0=n0, n1=n1, h1=h1, nlines=nlines, x0=b0[0])
     pre: 0 <= n0 <= 3 and 0 <= n1 <= 3 and 0 <= h1 < 2 and 1 <= nlines <= 2
     pre: all(0 <= b0[i] < NBT and (i < n0 or b0[i] == 0) for i in range(3))
     pre: all(0 <= b1[i] < NBT and (i < n1 or b1[i] == 0) for i in range(3))
     pre: nlines == 2 or (n1 == 0 and h1 == 0)
-    pre: pinned(n0=n0, n1=n1, h1=h1, nlines=nlines, x0=b0[0])
     post: _
     """
     raw = (b0, n0, b1, n1, h1, nlines)
@@ -317,14 +320,14 @@ def c20_rsa(b0: Tuple[int, int, int], n0: int, b1: Tuple[int, int, int], n1: int
 
 def _sh_fa(tier):
     if tier == "quick":
-        return product_pins(m=[2, 3], starts=[1, 3], finals=[2], l0=[0, 3], l1=[1, 2, 4, 5, 6], s0=[0, 8], s1=[2, 3, 4, 9])
-    return product_pins(m=[1, 2, 3], starts=[1, 3], finals=[2, 3], l0=[0, 2, 3, 7, 8], l1=[1, 2, 4, 5, 6, 9],
-                        s0=[0, 5, 8], s1=[1, 2, 3, 4, 6, 7, 9])
+        return product_pins(m=[2], starts=[3], finals=[2], l0=[0, 3], l1=[2, 4, 6])
+    return product_pins(m=[1, 2, 3], starts=[1, 3], finals=[2, 3], l0=[0, 2, 3, 7, 8], l1=[1, 2, 4, 5, 6, 9])
 
 
 def _sh_pda(tier):
     if tier == "quick":
-        return product_pins(m=[1, 2], finals=[2], sl=[0, 1, 2], kl=[0, 1, 2], il=[0, 1], f0=[0], c0=[0, 3, 4])
+        return [dict(m=2, finals=2, sl=a, kl=b, il=c, f0=0, c0=d) for (a, b, c) in ((0, 0, 0), (1, 1, 1), (2, 2, 0))
+                for d in (0, 3, 4)] + [dict(m=1, finals=2, sl=3, kl=3, il=2), dict(m=1, finals=2, sl=4, kl=1, il=1)]
     return product_pins(m=[1, 2], finals=[0, 2, 3], sl=[0, 1, 2, 3, 4], kl=[0, 1, 2, 3], il=[0, 1, 2], f0=[0, 1])
 
 
@@ -352,13 +355,13 @@ ASSUME = ["labels come from a candidate list of JSON-representable values that a
 
 CONDS = [
     Cond("C20", c20_fa, _sh_fa,
-         {"quick": "eps-NFA 2 states, 2-3 edges over 2 symbols + eps; state labels from {0,1,'0','a b','x\"y',unicode,"
-                   "'starting_0'}, symbol labels from {'a',0,1,'','a b','x\"y'}: same states, marking, transitions",
+         {"quick": "eps-NFA 2 states, 2 edges over 2 symbols + eps, both states start, state 1 final; state label pairs "
+                   "from {0,'a b'} x {'0','x\"y','starting_0'}, symbol labels from {'a',0,1,'','a b','x\"y'}: same states, marking, transitions",
           "thorough": "more label pairs incl. 'q->r', 2.5, 'INITIAL_STACK_HIDDEN', '->', '/', greek epsilon-like"},
          FUNCS, RULE, assumptions=ASSUME),
     Cond("C20", c20_pda, _sh_pda,
-         {"quick": "PDA 2 states, 1-2 transitions (eps input, pushes of 0-3 symbols), 3 state / 3 stack / 2 input "
-                   "label sets", "thorough": "5 x 4 x 3 label sets, all final masks"},
+         {"quick": "PDA 2 states, 2 transitions with the same source and input (different pop / target / push, pushes of "
+                   "0-3 symbols) or 1 transition, 5 label-set combinations", "thorough": "5 x 4 x 3 label sets, all final masks"},
          FUNCS, RULE, assumptions=ASSUME),
     Cond("C20", c20_text, _sh_text,
          {"quick": "4 grammar shapes (eps productions, recursion) over 2 variables and 2 terminals whose spellings are "
